@@ -37,6 +37,7 @@ structure DESnap (X E : Type) where
   bestEnergy : E
   evalmon : List (X × E)
   stepmon : List (X × E)
+  deriving DecidableEq, Repr
 
 def DESnap.save (s : DE X E) : DESnap X E :=
   { population := s.pop, popEnergy := s.popE, bestSolution := s.best, bestEnergy := s.bestE,
@@ -64,6 +65,7 @@ structure NMSnap (R E : Type) where
   popEnergy : List E
   evalmon : List (Pt R × E)
   stepmon : List (Pt R × E)
+  deriving DecidableEq, Repr
 
 def NMSnap.save (s : NM R E) : NMSnap R E :=
   { population := s.simplex.map Prod.fst, popEnergy := s.simplex.map Prod.snd, evalmon := s.log, stepmon := s.stepLog }
@@ -201,6 +203,8 @@ instance (l : Links) : Decidable l.Linked := by unfold Links.Linked; exact infer
 def Links.Valid (l : Links) (h : Heap) : Prop :=
   l.solverCtr < h.ctr.length ∧ l.closureCtr < h.ctr.length ∧ l.solverMon < h.mon.length ∧ l.closureMon < h.mon.length
 
+instance (l : Links) (h : Heap) : Decidable (l.Valid h) := by unfold Links.Valid; exact inferInstance
+
 /-- `solver.evaluations` = `self._fcalls[0]` -/
 def evaluations (h : Heap) (l : Links) : Nat := h.ctr.getD l.solverCtr 0
 
@@ -208,7 +212,7 @@ def evaluations (h : Heap) (l : Links) : Nat := h.ctr.getD l.solverCtr 0
 def monitor (h : Heap) (l : Links) : List Nat := h.mon.getD l.solverMon []
 
 /-- the counter the objective itself keeps -/
-def hidden (h : Heap) (l : Links) : Nat := h.ctr.getD l.closureCtr 0
+def hiddenCount (h : Heap) (l : Links) : Nat := h.ctr.getD l.closureCtr 0
 
 /-- one call of the user's cost through the decorated objective:
 `ncalls[0] += 1; fval = the_function(x); eval_monitor(x, fval)` -/
